@@ -22,7 +22,7 @@ BOUNDS = {
     "quick": "(output-time: Nsteps 1..4, period 1..2 steps, skip_initial symbolic, dt 60/3600, start/reference unbounded) start/stop/reference: any integer seconds with |t| <= 1e10; step n: any integer |n| <= 1e6; dt in {1, 7, 60, 3600} s; period values: any integer 0..1e6",
     "thorough": "as quick plus dt in {2, 3, 5, 11, 13, 86400, 100000} and a symbolic dt in 1..12",
 }
-ASSUMES = ["times within +-1e10 s of the epoch (datetime64[s] range used in practice)"]
+ASSUMES = ["times within +-1e10 s of the epoch (datetime64[s] range used in practice); the epoch itself included (numpy's datetime64(0) is falsy)"]
 OUTSIDE = ("digit-count dependent formatting (zero padding) of symbolic numerals; the 'd' entry of unit_table (numpy has no 'd' unit: nctime('d') raises TypeError; "
            "only s, m, h are demanded); leap seconds (numpy has none)")
 BIG = 10 ** 10
@@ -61,7 +61,6 @@ def _timer(W, p):
     dur = W.int("dur", 1, 10 ** 8)  # |stop - start| in seconds, any value (need not be a multiple of dt)
     ref = W.int("ref", -BIG, BIG)
     stop = start - dur if rev else start + dur
-    W.assume(W.all([W.not_(W.eq(start, 0)), W.not_(W.eq(stop, 0)), W.not_(W.eq(ref, 0))]), "start/stop/reference are not exactly 1970-01-01T00:00:00 (numpy's datetime64(0) is falsy and is taken as 'missing')")
     timer = tk.TimeKeeper(start=W.dt(start), stop=W.dt(stop), dt=dt, reference=W.dt(ref), time_reversal=rev)
     return tk, timer, start, dur, ref
 
@@ -114,7 +113,6 @@ def outtime(W, p):
     ref = W.int("ref", -BIG, BIG)
     extra = W.int("extra", 0, dt - 1)  # neither the duration nor the output period need be a whole number of steps
     stop = start + sgn * (N * dt + extra)
-    W.assume(W.all([W.not_(W.eq(start, 0)), W.not_(W.eq(stop, 0)), W.not_(W.eq(ref, 0))]), "start/stop/reference are not exactly 1970-01-01T00:00:00 (numpy's datetime64(0) is falsy and is taken as 'missing')")
     timer = tk.TimeKeeper(start=W.dt(start), stop=W.dt(stop), dt=dt, reference=W.dt(ref), time_reversal=rev)
     S = st.State()
     S.append(X=1, Y=1, Z=1)
@@ -159,11 +157,14 @@ def reject(W, p):
     tk = W.load("ladim.timekeeper")
     start = W.int("start", -BIG, BIG)
     d = W.int("d", 1, 10 ** 8)
-    W.assume(W.all([W.not_(W.eq(start, 0)), W.not_(W.eq(start + d, 0)), W.not_(W.eq(start - d, 0))]), "start/stop are not exactly 1970-01-01T00:00:00 (numpy's datetime64(0) is falsy and is taken as 'missing')")
     cases = [
         dict(start="", stop=W.dt(start + d), dt=60),
         dict(start=W.dt(start), stop="", dt=60),
         dict(start=W.dt(start), stop=W.dt(start + d), dt=0),
+        dict(start=W.dt(start), stop=W.dt(start + d), dt=[0, "s"]),  # a zero or negative time step in any spelling
+        dict(start=W.dt(start), stop=W.dt(start + d), dt="PT0S"),
+        dict(start=W.dt(start), stop=W.dt(start + d), dt=-60),
+        dict(start=W.dt(start), stop=W.dt(start + d), dt=[-1, "m"]),
         dict(start=W.dt(start), stop=W.dt(start - d), dt=60, time_reversal=False),
         dict(start=W.dt(start), stop=W.dt(start + d), dt=60, time_reversal=True),
     ]
